@@ -6,7 +6,7 @@ LEVEL = "translation_validation"
 
 def run(chk):
     th = build("plain")
-    nfree, ncanon = (24000, 6000) if chk.thorough else (2400, 600)
+    nfree, ncanon = (80000, 20000) if chk.thorough else (2400, 600)
     progs = sem.generate(chk.seed, nfree, canon=False) + sem.generate(chk.seed + 7, ncanon, canon=True, diverge=0.1)
     for p in progs[nfree:]:
         p["canon"] = False            # here only the end of the run is compared (every stop is C07's business)
